@@ -1,4 +1,7 @@
 import DoltVerif.Lemmas.ProllyMergeSendR2
+import DoltVerif.Lemmas.ProllyMergeAdd1
+import DoltVerif.Lemmas.ProllyMergeAddN
+import DoltVerif.Lemmas.ProllyMergeRefute
 import DoltVerif.Props.C13
 /-!
 C14 — Three-way tree merges follow key-wise merge semantics.
@@ -454,8 +457,9 @@ theorem no_event_between {cmp : Bytes → Bytes → Ordering} (ol : OrdLaws cmp)
 single-leaf `base`, `x` the generator built by `PatchGeneratorFromRoots` has a sound invariant — so the
 interface is satisfiable and R1 is settled wherever only point patches occur. -/
 theorem R1_leaf {cmp : Bytes → Bytes → Ordering} (ol : OrdLaws cmp) (fuel : Nat) (kb kx : List KV)
-    (sb : Sorted cmp kb) (sx : Sorted cmp kx) (d : PG) (hd : pgFromRoots (.leaf kb) (.leaf kx) = .ok d) :
-    ∃ Inv, GenSound cmp (fun _ => none) fuel kb kx Inv ∧ Inv d .start := by
+    (sb : Sorted cmp kb) (sx : Sorted cmp kx) (d : PG) (hd : pgFromRoots (.leaf kb) (.leaf kx) = .ok d)
+    (store : Addr → Option Tree := fun _ => none) :
+    ∃ Inv, GenSound cmp store fuel kb kx Inv ∧ Inv d .start := by
   have hmem := specDiffP_mem ol kb kx sb sx
   have hasc : AscE cmp (specDiffP cmp kb kx) := specDiffP_ascending ol kb kx sb sx
   let Inv : PG → GenPos → Prop := fun d pos =>
@@ -656,15 +660,13 @@ theorem sendPatches_interval_tests {cmp : Bytes → Bytes → Ordering} (ol : Or
    fun x r hr => point_range_decision ol x hr,
    fun store a b ta tb ha hb h => same_address_same_pairs ha hb h⟩
 
-/-- **patch_merge_refines_of_R1**: `patch_merge_refines` (content = key-wise merge at every key,
-collisions = the specification's in key order) for ALL well-formed trees under a byte-exact key order
-follows from R1 alone — R2 (`R2_SendPatchesSound`) and R3 (`apply_tiled_stream`) are proved. -/
-theorem patch_merge_refines_of_R1 {cmp : Bytes → Bytes → Ordering} (ol : OrdLaws cmp) (hexact : ∀ a b, cmp a b = .eq → a = b)
-    (collide : Collide) (r1 : R1_GeneratorSound cmp)
-    (store : Addr → Option Tree) (base left right : Tree)
-    (hb : base.WF store) (hl : left.WF store) (hr : right.WF store)
-    (kb : base.KeysOK) (kl : left.KeysOK) (kr : right.KeysOK)
+/-- **patch_merge_refines_of_gens**: the full statement for one triple follows from `GenSound` invariants
+for the two generators of that triple (R2 and R3 are proved). -/
+theorem patch_merge_refines_of_gens {cmp : Bytes → Bytes → Ordering} (ol : OrdLaws cmp) (hexact : ∀ a b, cmp a b = .eq → a = b)
+    (collide : Collide) (store : Addr → Option Tree) (base left right : Tree)
     (sb : Sorted cmp base.flatten) (sl : Sorted cmp left.flatten) (sr : Sorted cmp right.flatten)
+    (gl : ∀ fuel ld, pgFromRoots base left = .ok ld → ∃ Inv, GenSound cmp store fuel base.flatten left.flatten Inv ∧ Inv ld .start)
+    (gr : ∀ fuel rd, pgFromRoots base right = .ok rd → ∃ Inv, GenSound cmp store fuel base.flatten right.flatten Inv ∧ Inv rd .start)
     (content : List KV) (ps : List Patch) (cs : List Collision)
     (h : threeWayMerge cmp collide base left right = .ok (content, ps, cs)) :
     Sorted cmp content ∧
@@ -688,11 +690,178 @@ theorem patch_merge_refines_of_R1 {cmp : Bytes → Bytes → Ordering} (ol : Ord
         obtain ⟨ps', cs'⟩ := res
         simp [h3, pure, Except.pure] at h
         obtain ⟨rfl, rfl, rfl⟩ := h
-        obtain ⟨InvL, gl, il⟩ := r1 store (mergeFuel base left right) base left ld hb hl kb kl sb sl h1
-        obtain ⟨InvR, gr, ir⟩ := r1 store (mergeFuel base left right) base right rd hb hr kb kr sb sr h2
+        obtain ⟨InvL, gl', il⟩ := gl (mergeFuel base left right) ld h1
+        obtain ⟨InvR, gr', ir⟩ := gr (mergeFuel base left right) rd h2
         have sd := R2_SendPatchesSound ol hexact collide store (mergeFuel base left right) base.flatten left.flatten
-          right.flatten ld rd InvL InvR ps' cs' sb sl sr gl gr il ir h3
+          right.flatten ld rd InvL InvR ps' cs' sb sl sr gl' gr' il ir h3
         exact patch_merge_refines_of_stream ol collide _ _ _ sl ps' cs' sd
+
+/-- **patch_merge_refines_of_R1**: `patch_merge_refines` (content = key-wise merge at every key,
+collisions = the specification's in key order) for ALL well-formed trees under a byte-exact key order
+follows from R1 alone — R2 (`R2_SendPatchesSound`) and R3 (`apply_tiled_stream`) are proved. -/
+theorem patch_merge_refines_of_R1 {cmp : Bytes → Bytes → Ordering} (ol : OrdLaws cmp) (hexact : ∀ a b, cmp a b = .eq → a = b)
+    (collide : Collide) (r1 : R1_GeneratorSound cmp)
+    (store : Addr → Option Tree) (base left right : Tree)
+    (hb : base.WF store) (hl : left.WF store) (hr : right.WF store)
+    (kb : base.KeysOK) (kl : left.KeysOK) (kr : right.KeysOK)
+    (sb : Sorted cmp base.flatten) (sl : Sorted cmp left.flatten) (sr : Sorted cmp right.flatten)
+    (content : List KV) (ps : List Patch) (cs : List Collision)
+    (h : threeWayMerge cmp collide base left right = .ok (content, ps, cs)) :
+    Sorted cmp content ∧
+    (∀ k, lookupKV cmp k content =
+      (mergeKey collide (lookupKV cmp k base.flatten) (lookupKV cmp k left.flatten) (lookupKV cmp k right.flatten)).1) ∧
+    (∀ c, c ∈ cs ↔ ∃ k, (mergeKey collide (lookupKV cmp k base.flatten) (lookupKV cmp k left.flatten)
+      (lookupKV cmp k right.flatten)).2 = some c) ∧
+    cs.Pairwise (fun c1 c2 => cmp c1.left.key c2.left.key = .lt) :=
+  patch_merge_refines_of_gens ol hexact collide store base left right sb sl sr
+    (fun fuel ld h1 => r1 store fuel base left ld hb hl kb kl sb sl h1)
+    (fun fuel rd h2 => r1 store fuel base right rd hb hr kb kr sb sr h2) content ps cs h
+
+/-- **R1_empty_base_height1** (proved — R1 for a first class with RANGE patches): for the empty base and any
+well-formed `x` of height ≤ 1 (a leaf, or a root of leaf children) the generator built by
+`PatchGeneratorFromRoots` has a `GenSound` invariant: one level-1 added range per root slot with
+`keyBelowStart` = the last key below the previous slots, `split` descends into the slot's leaf and emits its
+pairs as point patches, `Next` at a leaf's last pair climbs back to the root slot after it. -/
+theorem R1_empty_base_height1 {cmp : Bytes → Bytes → Ordering} (ol : OrdLaws cmp) (store : Addr → Option Tree) (fuel : Nat)
+    (x : Tree) (hx : x.WF store) (kx : x.KeysOK) (sx : Sorted cmp x.flatten) (hh : x.height ≤ 1) (d : PG)
+    (hd : pgFromRoots (.leaf []) x = .ok d) :
+    ∃ Inv, GenSound cmp store fuel (Tree.leaf []).flatten x.flatten Inv ∧ Inv d .start := by
+  cases x with
+  | leaf kvs =>
+    simp only [Tree.flatten] at sx ⊢
+    exact R1_leaf ol fuel [] kvs (by simp [Sorted]) sx d hd store
+  | node cs =>
+    have hh0 : firstHeight cs = 0 := by simp [Tree.height] at hh; exact hh
+    simp only [Tree.WF] at hx
+    obtain ⟨hne, _, wf⟩ := hx
+    rw [hh0] at wf
+    simp only [Tree.KeysOK] at kx
+    simp only [Tree.flatten] at sx ⊢
+    refine ⟨AddInv cs, add_genSound ol hne hh0 wf kx sx fuel, ?_⟩
+    have hlen : cs.length ≠ 0 := by cases cs with | nil => exact absurd rfl hne | cons _ _ => simp
+    simp [pgFromRoots, Tree.count, hlen, descendTo, level, bind, Except.bind, pure, Except.pure] at hd
+    exact hd.symm
+
+/-- **patch_merge_refines_empty_base_height1** (proved, unconditional): for the empty base and ANY two
+well-formed sorted trees of height ≤ 1 (range patches, splits, the same-`To` shortcut and collisions all
+occur), under a byte-exact key order, `ThreeWayMerge` returns a strictly ascending content that maps every
+key to the key-wise merge, and hands the handler exactly the merge's collisions in key order. -/
+theorem patch_merge_refines_empty_base_height1 {cmp : Bytes → Bytes → Ordering} (ol : OrdLaws cmp)
+    (hexact : ∀ a b, cmp a b = .eq → a = b) (collide : Collide) (store : Addr → Option Tree) (left right : Tree)
+    (hl : left.WF store) (hr : right.WF store) (kl : left.KeysOK) (kr : right.KeysOK)
+    (sl : Sorted cmp left.flatten) (sr : Sorted cmp right.flatten) (hhl : left.height ≤ 1) (hhr : right.height ≤ 1)
+    (content : List KV) (ps : List Patch) (cs : List Collision)
+    (h : threeWayMerge cmp collide (.leaf []) left right = .ok (content, ps, cs)) :
+    Sorted cmp content ∧
+    (∀ k, lookupKV cmp k content =
+      (mergeKey collide (lookupKV cmp k (Tree.leaf []).flatten) (lookupKV cmp k left.flatten) (lookupKV cmp k right.flatten)).1) ∧
+    (∀ c, c ∈ cs ↔ ∃ k, (mergeKey collide (lookupKV cmp k (Tree.leaf []).flatten) (lookupKV cmp k left.flatten)
+      (lookupKV cmp k right.flatten)).2 = some c) ∧
+    cs.Pairwise (fun c1 c2 => cmp c1.left.key c2.left.key = .lt) :=
+  patch_merge_refines_of_gens ol hexact collide store (.leaf []) left right (by simp [Sorted, Tree.flatten]) sl sr
+    (fun fuel ld h1 => R1_empty_base_height1 ol store fuel left hl kl sl hhl ld h1)
+    (fun fuel rd h2 => R1_empty_base_height1 ol store fuel right hr kr sr hhr rd h2) content ps cs h
+
+/-- **R1_empty_base** (proved — R1 for the empty base and a tree of ANY height): the generator built by
+`PatchGeneratorFromRoots` for `empty → x` has a `GenSound` invariant.  The `to` cursor is an in-bounds path
+in `x`; with `x.flatten = D ++ I ++ A` (pairs before / of / after the cursor's current item) a patch at
+level > 0 is `(lastKey D, key] ↦ item subtree` (its address resolves in the store, its last key is the slot
+key), at level 0 the item's pair; `Next` climbs while at a node's end and advances (`D := D ++ I`, nothing of
+`x` lies between), `split` pushes the item's child (`D` unchanged) — at every level, so nested splits of
+range patches into lower range patches are covered. -/
+theorem R1_empty_base {cmp : Bytes → Bytes → Ordering} (ol : OrdLaws cmp) (store : Addr → Option Tree) (fuel : Nat)
+    (x : Tree) (hx : x.WF store) (kx : x.KeysOK) (sx : Sorted cmp x.flatten) (d : PG)
+    (hd : pgFromRoots (.leaf []) x = .ok d) :
+    ∃ Inv, GenSound cmp store fuel (Tree.leaf []).flatten x.flatten Inv ∧ Inv d .start := by
+  by_cases hc : x.count = 0
+  · cases x with
+    | node cs =>
+      simp only [Tree.WF] at hx
+      simp only [Tree.count] at hc
+      exact absurd (List.length_eq_zero_iff.mp hc) hx.1
+    | leaf kvs =>
+      simp only [Tree.flatten] at sx ⊢
+      exact R1_leaf ol fuel [] kvs (by simp [Sorted]) sx d hd store
+  · have hpos : 0 < x.count := Nat.pos_of_ne_zero hc
+    refine ⟨AddInvN x, ?_, ?_⟩
+    · simp only [Tree.flatten]
+      exact addN_genSound ol hx kx sx hpos fuel
+    · have h0 : (Tree.leaf ([] : List KV)).count = 0 := rfl
+      simp [pgFromRoots, h0, hc, descendTo, level, bind, Except.bind, pure, Except.pure] at hd
+      exact hd.symm
+
+/-- **patch_merge_refines_empty_base** (proved, unconditional, all heights): for the empty base and ANY two
+well-formed sorted trees, under a byte-exact key order, `ThreeWayMerge` (two range-patch generators,
+`SendPatches` with all its range branches, `ApplyPatches`) returns a strictly ascending content that maps
+every key to the key-wise merge, and hands the handler exactly the merge's collisions in key order. -/
+theorem patch_merge_refines_empty_base {cmp : Bytes → Bytes → Ordering} (ol : OrdLaws cmp)
+    (hexact : ∀ a b, cmp a b = .eq → a = b) (collide : Collide) (store : Addr → Option Tree) (left right : Tree)
+    (hl : left.WF store) (hr : right.WF store) (kl : left.KeysOK) (kr : right.KeysOK)
+    (sl : Sorted cmp left.flatten) (sr : Sorted cmp right.flatten)
+    (content : List KV) (ps : List Patch) (cs : List Collision)
+    (h : threeWayMerge cmp collide (.leaf []) left right = .ok (content, ps, cs)) :
+    Sorted cmp content ∧
+    (∀ k, lookupKV cmp k content =
+      (mergeKey collide (lookupKV cmp k (Tree.leaf []).flatten) (lookupKV cmp k left.flatten) (lookupKV cmp k right.flatten)).1) ∧
+    (∀ c, c ∈ cs ↔ ∃ k, (mergeKey collide (lookupKV cmp k (Tree.leaf []).flatten) (lookupKV cmp k left.flatten)
+      (lookupKV cmp k right.flatten)).2 = some c) ∧
+    cs.Pairwise (fun c1 c2 => cmp c1.left.key c2.left.key = .lt) :=
+  patch_merge_refines_of_gens ol hexact collide store (.leaf []) left right (by simp [Sorted, Tree.flatten]) sl sr
+    (fun fuel ld h1 => R1_empty_base ol store fuel left hl kl sl ld h1)
+    (fun fuel rd h2 => R1_empty_base ol store fuel right hr kr sr rd h2) content ps cs h
+
+/-- **R1_height1 (statement only — REFUTED below, `R1_height1_false`)**: R1 restricted to well-formed trees of
+height ≤ 1 with an arbitrary base.  Proved instances: `R1_leaf` (both trees a single leaf), `R1_empty_base`
+(empty base, any height).  For a non-empty base against a root of leaf children it is FALSE for the code as
+transliterated (and the real code behaves the same, design/C14.md "second defect"): after a modified range
+that ends at `to`'s last key, `advanceFromPreviousPatch` sends a removed range although the `from` node
+straddles `previousKey`, and `split` of a removed range does not skip the keys ≤ `previousKey`.  It would hold
+for the repaired `split` (design/C14-dataloss-fix-candidate.diff). -/
+def R1_height1 (cmp : Bytes → Bytes → Ordering) : Prop :=
+  ∀ (store : Addr → Option Tree) (fuel : Nat) (base x : Tree) (d : PG),
+    base.WF store → x.WF store → base.KeysOK → x.KeysOK → Sorted cmp base.flatten → Sorted cmp x.flatten →
+    base.height ≤ 1 → x.height ≤ 1 →
+    pgFromRoots base x = .ok d →
+    ∃ Inv, GenSound cmp store fuel base.flatten x.flatten Inv ∧ Inv d .start
+
+/-- **patch_merge_refines_height1_of_R1h1**: for trees of height ≤ 1 the full statement follows from
+`R1_height1` alone. -/
+theorem patch_merge_refines_height1_of_R1h1 {cmp : Bytes → Bytes → Ordering} (ol : OrdLaws cmp)
+    (hexact : ∀ a b, cmp a b = .eq → a = b) (collide : Collide) (r1 : R1_height1 cmp)
+    (store : Addr → Option Tree) (base left right : Tree)
+    (hb : base.WF store) (hl : left.WF store) (hr : right.WF store)
+    (kb : base.KeysOK) (kl : left.KeysOK) (kr : right.KeysOK)
+    (sb : Sorted cmp base.flatten) (sl : Sorted cmp left.flatten) (sr : Sorted cmp right.flatten)
+    (hhb : base.height ≤ 1) (hhl : left.height ≤ 1) (hhr : right.height ≤ 1)
+    (content : List KV) (ps : List Patch) (cs : List Collision)
+    (h : threeWayMerge cmp collide base left right = .ok (content, ps, cs)) :
+    Sorted cmp content ∧
+    (∀ k, lookupKV cmp k content =
+      (mergeKey collide (lookupKV cmp k base.flatten) (lookupKV cmp k left.flatten) (lookupKV cmp k right.flatten)).1) ∧
+    (∀ c, c ∈ cs ↔ ∃ k, (mergeKey collide (lookupKV cmp k base.flatten) (lookupKV cmp k left.flatten)
+      (lookupKV cmp k right.flatten)).2 = some c) ∧
+    cs.Pairwise (fun c1 c2 => cmp c1.left.key c2.left.key = .lt) :=
+  patch_merge_refines_of_gens ol hexact collide store base left right sb sl sr
+    (fun fuel ld h1 => r1 store fuel base left ld hb hl kb kl sb sl hhb hhl h1)
+    (fun fuel rd h2 => r1 store fuel base right rd hb hr kb kr sb sr hhb hhr h2) content ps cs h
+
+/-- **R1_height1_false** (proved): `R1_height1` fails for the byte order on single-byte keys — witness
+base `[1,2,3,4 | 5,6,7,8]`, x `[1,2,3,4' | 5,6]` (both well-formed, key-consistent, strictly ascending, height
+1): the transliterated generator emits `(_,4]`, `(4,6]`, `(6,8] removed`, and `split` of the last yields
+`removed 5` although key 5 is unchanged, so no invariant satisfies `GenSound` (`Refute.no_genSound`, by
+evaluation of `pgNext` ×3 and `pgSplit`). -/
+theorem R1_height1_false : ¬ R1_height1 Refute.cmpB := by
+  intro r1
+  exact Refute.no_genSound (r1 Refute.store 6 Refute.base Refute.xx Refute.d0 Refute.wf_base Refute.wf_xx
+    Refute.keys_base Refute.keys_xx Refute.sorted_base Refute.sorted_xx Refute.height_base Refute.height_xx Refute.roots)
+
+/-- **R1_GeneratorSound_false** (proved): hence the unrestricted named hypothesis `R1_GeneratorSound` is
+false as stated as well; `patch_merge_refines_of_R1` remains a true implication, and the unconditional
+results are `patch_merge_refines_leaf` and `patch_merge_refines_empty_base`. -/
+theorem R1_GeneratorSound_false : ¬ R1_GeneratorSound Refute.cmpB := by
+  intro r1
+  exact Refute.no_genSound (r1 Refute.store 6 Refute.base Refute.xx Refute.d0 Refute.wf_base Refute.wf_xx
+    Refute.keys_base Refute.keys_xx Refute.sorted_base Refute.sorted_xx Refute.roots)
 
 /-! ### statements that are compared by the harness, not proved -/
 
